@@ -18,6 +18,9 @@ def run(ctx, model_ok):
         ctx.cov["traces_validated_against_impl"] = st["rows"]
         ctx.cov["samples"] = st.pop("samples")
         ctx.cov["correspondence"] = st
+    if ctx.driver_ok:
+        from corr import trimesh_family
+        ctx.cov["correspondence_trimesh"] = trimesh_family.run_stream(ctx, ctx.scale(80, 3000))
     budget = 10 if len(ctx.broken) else 1
     fails, ost = oracle.sweep(ctx, ctx.scale(200, 6000) * budget)
     ctx.failing += fails
@@ -25,10 +28,13 @@ def run(ctx, model_ok):
     ctx.cov.setdefault("evaluations", ost["c02_rows"])
     ctx.cov.setdefault("distinct_nontrivial", ost["c02_rows"])
     ctx.cov.setdefault("samples", [ost])
-    ctx.cov["not_shown"] = ["that the masks the wrappers compute are the geometric inside predicate of Cuboid/Cylinder/Segment/Tetrahedron/TriangularMesh "
-                            "(proved for Sphere; others by the oracle at stratified observers)",
+    ctx.cov["not_shown"] = ["that the masks the wrappers compute are the geometric inside predicate of Cuboid/Cylinder/Segment/TriangularMesh "
+                            "(proved for Sphere; Tetrahedron: the barycentric test is modelled and shown order-independent, J/M and B branches use the same set; "
+                            "others by the oracle at stratified observers)",
+                            "Cylinder, CylinderSegment, TriangularMesh: consistency shown for the wrapper dispatch with the core and the inside mask as parameters "
+                            "(Triangle, Tetrahedron, Circle, Sphere, Dipole: shown for the full ported function)",
                             "full mu0_single: false on this tree (known finding)"]
-    ctx.assumptions += ["wrapper dispatch modelled by hand with the core as a parameter; cuboid masks, sphere, dipole, segment ports tied by the kern stream"]
+    ctx.assumptions += ["wrapper dispatch modelled by hand with the core as a parameter; cuboid masks, sphere, dipole, segment, triangle, tetrahedron, circle ports tied by the kern stream"]
 
 
 def replay(ctx, payload):
